@@ -31,7 +31,8 @@ def BoxType.ext : BoxType → Bytes
   | .uuid id => id
 
 /-- `header_size` -/
-def hdrLen (t : BoxType) (large : Bool) : Nat := 8 + (if large then 8 else 0) + t.ext.length
+def hdrLen (t : BoxType) (large : Bool) : Nat :=
+  4 + t.cc.length + (if large then 8 else 0) + t.ext.length
 
 def encHeader (t : BoxType) (large : Bool) (size : Nat) : Bytes :=
   if large then encU32 1 ++ (t.cc ++ (encU64 size ++ t.ext))
